@@ -24,7 +24,8 @@ LEVEL = ("structural clauses: semantic facts of each enum builder and of merge_p
          "member table, default converted before registration; subset merge in both directions, value-type compatibility); "
          "every store of a member name (paths of values_from_list simulated for int / str members x duplicate found / not) is preceded by a "
          "duplicate test on the very key that is stored or names an integer member injectively, a found duplicate ends in a "
-         "diagnostic; closed decode (enum construct calls the class, the "
+         "diagnostic; closed decode (enum construct calls the class, the generated decoder of an enum / literal-enum property hands "
+         "every value that is present - not the UNSET marker - to that call on every path, no test of the value itself in between, the "
          "literal check function tests membership and its fall-through raises, the const decoder - the code the macro generates under every "
          "assignment of the template conditions, macro calls followed and `set` variables read as their definitions - raises whenever a "
          "present value differs from the constant), encode is .value / identity in every encoder macro (same reading), str(<member>) only together with a __str__ of the generated class that returns the "
@@ -43,7 +44,9 @@ def run(rep: Report, ctx: Any) -> str:
     _member_names(rep, ctx)
 
     # ---- R14.3 closed decode -----------------------------------------------------------------------------------------
-    rep.rule("R14.3", "decode is closed: Enum(value) / check_<name>(value) with membership test and raising fall-through / const "
+    rep.rule("R14.3", "decode is closed: Enum(value) / check_<name>(value) with membership test and raising fall-through, applied by "
+                      "the generated property decoder to every value that is present (only the test for the UNSET marker decides "
+                      "whether the value is decoded) / const "
                       "comparison that raises under every condition of the template (required and optional property alike); encode is "
                       ".value or identity in every encoder macro of the enum template - an encoder that writes str(<member>) instead "
                       "relies on the generated class, whose __str__ must then return the value")
@@ -73,11 +76,24 @@ def run(rep: Report, ctx: Any) -> str:
     rep.check(ok, "R14.3", "enum_property::construct_function",
               "decoding an enum no longer calls the enum class on the wire value", where=f"{PKG}/templates/{et.name}", lhs=shown,
               rhs="<Class>(<source>)")
+    ok, shown = _present_value_decoded(et, jx, lambda fn_: fn_ == "CLASS")
+    rep.check(ok, "R14.3", "enum_property::construct::present-value-decoded",
+              "the generated decoder of an enum property does not hand every value that is present to the enum class: a test that "
+              "depends on the value itself (not on its being the UNSET marker) decides whether it is decoded, so a listed value can "
+              "end up as something else than its member", where=f"{PKG}/templates/{et.name}", lhs=shown,
+              rhs="value present (not the UNSET marker) -> <property> = <Class>(<value>) on every path")
     _enum_encoders(rep, jx, et)
     ok, shown = decoder_calls(lt, lambda fn_: fn_.startswith("check_"))
     rep.check(ok, "R14.3", "literal_enum_property::construct_function",
               "decoding a literal enum no longer goes through its check_ function", where=f"{PKG}/templates/{lt.name}", lhs=shown,
               rhs="check_<name>(<source>)")
+    ok, shown = _present_value_decoded(lt, jx, lambda fn_: fn_.startswith("check_"))
+    rep.check(ok, "R14.3", "literal_enum_property::construct::present-value-decoded",
+              "the generated decoder of a literal-enum property does not hand every value that is present to the check_ function: a "
+              "test that depends on the value itself (not on its being the UNSET marker) decides whether it is checked, so a listed "
+              "value can end up as something else than itself, an unlisted one can get past the check",
+              where=f"{PKG}/templates/{lt.name}", lhs=shown,
+              rhs="value present (not the UNSET marker) -> <property> = check_<name>(<value>) on every path")
     # the check function itself, read as the Python it is (template expressions stand for a name): on every path a value that is in
     # the value set is returned and a value that is not ends in a raise - whatever the order of the two and the polarity of the test
     ok, shown = _check_function_closed(le)
@@ -228,6 +244,75 @@ def _roles(table: dict[str, str]) -> Any:
         return table.get(t)
 
     return role
+
+
+def _present_value_decoded(ti: Any, jx: Any, callee_ok: Any) -> "tuple[bool, str | None]":
+    """The decoder a closed-value template generates for a property (its `construct` macro, read as the Python it is under every
+    valuation of the template conditions, macro calls followed): on every path on which the wire value is present - the tests that
+    ask whether a value is the UNSET marker (isinstance(x, Unset), x is UNSET) answered "no", every other test free to go either way,
+    since it depends on the value - the property's variable ends up bound to the decoding call (the template's construct_function
+    macro, or what that macro writes: <Class>(..) / check_<name>(..)) applied to the wire value itself.  Whether the marker test is
+    written first or last, positively or negatively, as a statement or as a conditional expression, in this template or in a
+    shared macro is all the same; a test of the value's truthiness, type or anything else in front of the decoding call is not."""
+    from jinja2 import nodes as jn
+    import textwrap
+
+    m = ti.macros.get("construct")
+    if m is None:
+        return False, "no construct macro"
+    names = {"property.python_name": "VALUE", "source": "SOURCE", "property.class_info.name": "CLASS"}
+    table = _roles(names)
+
+    def role(e: Any, text: str, at: int, tev: Any) -> "str | None":
+        if isinstance(e, jn.Call) and isinstance(e.node, jn.Name) and e.node.name == "construct_function" and e.node.name in ti.macros and \
+                e.args and not e.kwargs:
+            # the decoding macro, handed to a shared wrapper as an argument and called there: its argument in the caller's terms
+            ps = [a.name for a in ti.macros[e.node.name].args]
+            k = ps.index("source") if "source" in ps and ps.index("source") < len(e.args) else len(e.args) - 1
+            return "DECODE(" + _sym_text(norm_j(e.args[k]), names) + ")"
+        return table(e, text, at, tev)
+
+    vs = generated_variants(m, ti, jx, role, limit=8)
+    if not vs:
+        return False, "construct macro depends on too many conditions"
+
+    for env, body in vs:
+        shown = ", ".join(f"{k}={v}" for k, v in env.items()) or "always"
+        body = textwrap.dedent("\n".join(ln for ln in body.splitlines() if ln.strip()))
+        text = "def f(SOURCE):\n" + "".join("    " + ln + "\n" for ln in body.splitlines()) + "    return VALUE\n"
+        try:
+            fn = ast.parse(text).body[0]
+        except SyntaxError:
+            return False, f"[{shown}] generated decoder does not parse: {' '.join(body.split())[:80]}"
+
+        def is_source(e: ast.expr, st: dict, sim: PathSim) -> bool:
+            e = _strip(sim.resolve(e, st))
+            return isinstance(e, ast.Name) and e.id == "SOURCE"
+
+        def leaf(e: ast.expr, st: dict, sim: PathSim) -> "bool | None":
+            if isinstance(e, ast.Call) and call_name(e) == "isinstance" and len(e.args) == 2 and is_source(e.args[0], st, sim) and \
+                    _class_names(e.args[1]) == ["Unset"]:
+                return False
+            if isinstance(e, ast.Compare) and len(e.ops) == 1 and isinstance(e.ops[0], (ast.Is, ast.IsNot)):
+                a, b = e.left, e.comparators[0]
+                for x, y in ((a, b), (b, a)):
+                    if is_source(x, st, sim) and isinstance(y, ast.Name) and y.id == "UNSET":
+                        return isinstance(e.ops[0], ast.IsNot)
+            return None
+
+        sim = PathSim(fn, leaf)
+        paths = sim.paths()
+        if not paths:
+            return False, f"[{shown}] no path"
+        for p_ in paths:
+            v = sim.resolve(p_.end.value, p_.end_state) if isinstance(p_.end, ast.Return) and p_.end.value is not None else None
+            ok = isinstance(v, ast.Call) and isinstance(v.func, ast.Name) and (v.func.id == "DECODE" or callee_ok(v.func.id)) and \
+                len(v.args) == 1 and not v.keywords and is_source(v.args[0], p_.end_state, sim)
+            if not ok:
+                via = [norm(t)[:40] for t in p_.undecided()]
+                return False, f"[{shown}] value present" + (f", after {via}" if via else "") + ": " + \
+                    (f"<property> = {norm(v)[:50]}" if v is not None else norm(p_.end)[:50] if p_.end is not None else "?")
+    return True, None
 
 
 def _const_check_closed(ct: Any, jx: Any) -> "tuple[bool, str | None]":
